@@ -330,3 +330,12 @@ def join_genexp(a, b):
 
 def bool_index(a):
     return ("no", "yes")[a > 3], [10, 20][bool(a)]
+
+
+def walrus_and_star(a, b):
+    def f(x, y, z=0):
+        return x * 100 + y * 10 + z
+    pair = (a, b)
+    if (t := a + b) > 5:
+        return f(*pair), t, (7, *pair), [*pair, a] == [a, b, a], a in (0, *pair)
+    return f(*pair, z=t), {k: k + a for k in (1, 2, 3) if k != b}.get(2, -1)
